@@ -11,7 +11,7 @@ CHECKS = {
   cat="exploration", ref="DESIGN.md section 3, C01",
   technique="runtime monitoring: client-boundary emit log vs independent stream decoder, on ASan+UBSan libovni",
   text="Generated op scripts (boundary sweep over every distance 1..64 of the 2 MiB buffer limit, op soups, dense "
-       "automatic flushes, multi-thread, genuine partial writes, writes failing with EINTR) are executed against the real libovni built with "
+       "automatic flushes, multi-thread, genuine partial writes, writes failing with EINTR, programs without a standard input) are executed against the real libovni built with "
        "ASan+UBSan; every stream.obs is decoded by an independent parser and must equal, event for event and byte for "
        "byte, the log the driver wrote before each API call, flush markers aside. Held on the executions observed, "
        "not a proof over all programs.",
@@ -21,7 +21,7 @@ CHECKS = {
   cat="exploration", ref="DESIGN.md section 3, C02",
   technique="runtime monitoring: conformant generated programs on ASan+UBSan libovni, independent trace validator, then ovniemu -l",
   text="Generated protocol-conformant programs (1-4 threads, all clocks from ovni_clock_now, near-capacity jumbo events "
-       "arriving at buffer fill levels with every distance 1..64 to the limit covered, back-to-back automatic flushes, OVNI_TMPDIR on and off, a quarter of the runs under genuine partial writes) run against the "
+       "arriving at buffer fill levels with every distance 1..64 to the limit covered, back-to-back automatic flushes, OVNI_TMPDIR on and off, a quarter of the runs under genuine partial writes, one in seven without a standard input) run against the "
        "real libovni; every stream must pass an independent validator (header, exact tiling, non-decreasing clocks, "
        "properly paired non-nested OF[ OF], complete metadata) and the real ovniemu -l must accept the trace.",
   note="Conformance as documented in doc/user/runtime/index.md; OB. events with arbitrary payload/jumbo data stand "
@@ -29,7 +29,7 @@ CHECKS = {
  "C04": dict(
   cat="exploration", ref="DESIGN.md section 3, C04",
   technique="runtime monitoring: bounded-exhaustive legal-prefix closure + random histories through the real ovniemu, six-transition reference machine as oracle, thread.prv step functions compared per event",
-  text="Every legal prefix (per the six-transition machine of the statement) up to a fixed length over the OH* alphabet, "
+  text="Every legal prefix (per the six-transition machine of the statement) up to a fixed length over the OH* alphabet (execute naming the usual or another CPU of the loom), "
        "on one thread, on the virtual CPU and on two threads (own CPUs, shared physical CPU, shared virtual CPU), is "
        "extended by every possible next event and run through the real emulator: legal extensions completed to Dead "
        "must be accepted with thread.prv types 4/2/6 equal to the machine after every event (and rejected bare if a "
@@ -113,7 +113,7 @@ CHECKS = {
   text="(a) the real version_parse/version_is_compatible (ASan+UBSan harness) on all 324 (want,have) pairs over majors "
        "and minors {0,1,2} and patches {0,9}, random triples up to 10^6 and unambiguously malformed strings; (b) "
        "ovni_version_check_str of the built libovni for every triple around the library's own version and the malformed "
-       "strings (accept = returns, refuse = abort with a diagnostic); (c) the real ovniemu on traces that require each "
+       "strings (accept = returns, refuse = abort with a diagnostic), also from 2-16 threads at once; (c) the real ovniemu on traces that require each "
        "of the eight models at versions around the emulator's own, malformed requirements, several streams requiring one model at mixed versions (both orders), every version case again with -a, and subsets of the seven "
        "optional models spread over two threads: the set the emulator reports as enabled must be exactly the required "
        "set (all models with -a), probe events of enabled models are accepted and one of a disabled model is rejected.",
@@ -139,7 +139,7 @@ CHECKS = {
        "needed depth (the ring wraps and is rebuilt) to the default. Exit 0 is required and the decoded result must "
        "equal the stable sort by clock of the original list (permutation, bytes, order and tie stability in one "
        "comparison), same size; a second run must change nothing, ovnisort -c and ovniemu -l must accept. Streams whose "
-       "destination is more than twice the window back must fail with a message. Thorough runs a share under "
+       "destination is more than twice the window back must fail with a message for every window size from 4 up. Thorough runs a share under "
        "ASan+UBSan with the heap stream buffer.",
   note="Nothing is asserted between n/2 and 2n events of look-back. Tie stability rests on glibc's qsort being a "
        "merge sort."),
@@ -147,7 +147,8 @@ CHECKS = {
   cat="exploration", ref="DESIGN.md section 3, C18",
   technique="runtime monitoring: exhaustive one-event probes of every printable event code per model through the real emulator, set comparison with the ovnievents listing, independent re-implementation of the ovnidump description substitution",
   text="The listing printed by the build's own ovnievents is compared with the frozen documented table (set and "
-       "signatures); every listed event is run once in a legal context through the real ovniemu and must be accepted; "
+       "signatures); every listed event is run in a legal context through the real ovniemu (thread Running, and Cooling / "
+       "Warming where the model accepts that) and must be accepted; "
        "every unlisted code M c v over the 94 printable characters in each of the eight models (70 688 codes in the "
        "thorough tier, with empty payload and with the payload sizes listed for that category) is run as a one-event "
        "probe and must be rejected unless it falls in the carve-outs (OB?, OU?, legacy codes accepted with a warning "
@@ -166,7 +167,8 @@ CHECKS = {
        "faulty event (wrong partner, deleted enter, unmatched leave, double OF[) which must be rejected; immediate "
        "re-entry for channels that forbid duplicates; chains to depth 512 (accepted) and 513 (rejected); the same "
        "events with the thread paused, cooling, warming or out of CPU, rejected exactly where the model demands a "
-       "running or active thread.",
+       "running or active thread; nOS-V and Nanos6 histories in which regions and task events (which push the task body on "
+       "the same stack) interleave on three threads.",
   note="Oracle: lib/refemu.py FullSystem over spec/events.json. Models allowing duplicates (nOS-V, OpenMP) are only "
        "judged in the direction the property states."),
  "C07": dict(
@@ -175,7 +177,8 @@ CHECKS = {
   text="(A) The real task module is driven in-process under ASan+UBSan for 17 flag combinations of {parallel, resurrect, "
        "pause, relax-nesting}: every legal prefix of bounded length over execute/pause/resume/end x five bodies x two "
        "thread stacks is extended by every next operation; the return code of that operation and the body the module "
-       "reports as running on each stack must agree with the machine of the statement; random sequences to length 30 on "
+       "reports as running on each stack must agree with the machine of the statement; random sequences to length 30 and "
+       "long-life sequences (a parallel task running 15-6000 bodies, then one more operation on an old body id) on "
        "top. (B) nOS-V (normal and parallel tasks, body ids, API pause region) and Nanos6 (blocking region) histories on "
        "two threads - closure to depth 3/5 and random to length 50 - go through the real ovniemu: acceptance must match "
        "the reference and types 10-15 / 35-38 must show the running body's task id, type (by label), body id, app id and "
@@ -190,9 +193,9 @@ CHECKS = {
        "pause/resume/cool/warm and affinity changes run against the real libovni; the events the library wrote are "
        "merged by clock, emulated with ovniemu -l, and after every event the rows of type 100+t must show the thread's "
        "value exactly while it is active (thread.prv) and on the CPU where it runs while running (cpu.prv); both .pcf "
-       "files must carry the title and every registered label. Eighteen single misuses/conflicts (pop mismatch, pop on "
+       "files must carry the title and every registered label. Some thirty single misuses/conflicts (pop mismatch, pop on "
        "empty, zero values, undefined types, push/set on the wrong channel type, redefinitions, title/channel-type/label "
-       "conflicts between threads) must end in a runtime abort or an emulation failure; two controls must pass.",
+       "conflicts between threads in several string shapes) must end in a runtime abort or an emulation failure; two controls must pass.",
   note="Runs whose streams have equal clocks across threads are inconclusive (merge order unspecified)."),
  "C20": dict(
   cat="exploration", ref="DESIGN.md section 3, C20",
@@ -240,7 +243,8 @@ CHECKS = {
        "and OVNI_TMPDIR on and off: no ThreadSanitizer report may have a frame in the library, and every thread's decoded "
        "stream and metadata (tid, CPUs, attributes, required models) must be exactly what that thread emitted and set. "
        "(2) 2-16 threads race ovni_proc_init and then ovni_proc_fini; losers are parked in a SIGABRT handler: exactly "
-       "one call must return, N-1 must be refused, each with a diagnostic. Evidence counts distinct completion orders "
+       "one call must return, N-1 must be refused, each with a diagnostic; in a third of the runs half of the second-phase "
+       "racers call ovni_proc_init instead and must all be refused. Evidence counts distinct completion orders "
        "and distinct winners as a measure of schedule diversity.",
   note="TSan reports are collected with halt_on_error=0 and de-duplicated by library entry points; the kernel decides "
        "the schedules, so this is evidence about the interleavings observed, not all of them."),
